@@ -1,7 +1,7 @@
 #!/usr/bin/env python3
 """Development aid, NOT a check: runs a harness over its whole decision tree by plain depth-first
 enumeration (no CrossHair), with the z3 call-shape queries enabled.  Used to size universes and to debug
-formalisations quickly.  usage: .venv/bin/python tools/enum.py harness.c09 h_exact '{"K":2}' [max]"""
+formalisations quickly.  usage: .venv/bin/python tools/devenum.py harness.c09 h_exact '{"K":2}' [max]"""
 import collections
 import json
 import os
